@@ -12,6 +12,14 @@ import runimpl  # noqa: E402
 import vmwire  # noqa: E402
 
 ABBREV = {'hue': 'H', 'saturation': 'S', 'brightness': 'B', 'kelvin': 'K'}
+# the documented lower-case keywords and register names (docs/language.rst, iteration.rst,
+# functions.rst) — written out here so that the oracle does not depend on the translator
+DOC_KEYWORDS = ['all', 'and', 'as', 'assign', 'at', 'begin', 'break', 'column', 'cycle', 'default',
+                'define', 'else', 'end', 'from', 'get', 'group', 'if', 'in', 'location', 'logical',
+                'off', 'on', 'or', 'pause', 'print', 'printf', 'println', 'raw', 'repeat', 'return',
+                'rgb', 'row', 'set', 'stage', 'to', 'units', 'wait', 'while', 'with', 'zone']
+DOC_REGISTERS = ['hue', 'saturation', 'brightness', 'kelvin', 'red', 'green', 'blue', 'default',
+                 'duration', 'time']
 PUNCT = set('[]{}()+-*/%^<>=!')
 BUILTINS = set(progs.BUILTIN_PARAMS)
 
@@ -171,9 +179,9 @@ def ident_cases(chk, thorough):
         idents.add(chk.rng.choice(start) + ''.join(chk.rng.choice(rest + 'xyQ_') for _ in range(n - 1)))
     # every case variant of every keyword, register word, abbreviation and internal class name
     words = set()
-    tabs = chk.tables['sections'].get('LexTables', {}).get('values', {})
-    for w in tabs.get('keywords', []) + tabs.get('registerWords', []) + \
-            [m.lower() for m in tabs.get('tokenTypes', [])] + ['h', 's', 'b', 'k']:
+    from bardolph.parser.token import TokenTypes
+    for w in DOC_KEYWORDS + DOC_REGISTERS + ['breakpoint', 'not'] + \
+            [m.name.lower() for m in TokenTypes] + ['h', 's', 'b', 'k']:
         words.update({w, w.upper(), w.capitalize(), w[:-1] + w[-1].upper(), w + '_', '_' + w, w + '1'})
     idents.update(w for w in words if w and (w[0].isalpha() or w[0] == '_'))
     return sorted(idents)
@@ -187,12 +195,9 @@ def main():
     stats = {'relayouts': 0, 'relayout_modes': {}, 'brace_variants': 0, 'bracket_variants': 0,
              'identifiers': 0, 'identifier_uses': 0, 'strings': 0, 'lex_requests': 0,
              'lex_mismatch': 0}
-    tabs = chk.tables['sections'].get('LexTables', {}).get('values', {})
-    reserved = set(tabs.get('keywords', [])) | set(tabs.get('registerWords', [])) | \
-        {'H', 'S', 'B', 'K'}
-    # the manual documents neither `breakpoint` nor `not` (docs/language.rst): by the property's
-    # wording they are ordinary names
-    reserved -= {'breakpoint', 'not'}
+    # the manual documents neither `breakpoint` nor `not`: by the property's wording they are
+    # ordinary names (known finding C16-F2)
+    reserved = set(DOC_KEYWORDS) | set(DOC_REGISTERS) | {'H', 'S', 'B', 'K'}
     lex_texts = []
     # ---- 1. same token sequence, different layout -> same program
     n = 1500 if chk.thorough else 220
